@@ -235,6 +235,15 @@ class SpreadStepSizes(_Base):
                     for ow in (True, False):
                         out.append(dict(n=n, r=r, dt_new=dn, overwrite=ow, nlevels=1))
         out.append(dict(n=2, r=1, dt_new=True, overwrite=True, nlevels=2))
+        # non-default mode: spread from the restarted step with the SMALLEST proposal on the finest level
+        for n in self.Ns(tier):
+            for r in range(n):
+                for nl in (1, 2):
+                    if nl == 2 and n > 2:
+                        continue
+                    out.append(dict(n=n, r=r, dt_new=True, overwrite=(n + r) % 2 == 0, nlevels=nl, spread_first=False))
+                    if nl == 2:  # what adaptivity really leaves behind: a proposal on the finest level only
+                        out.append(dict(n=n, r=r, dt_new=True, overwrite=False, nlevels=nl, spread_first=False, coarse_proposal=False))
         return out
 
     def build(self, inst, mk):
@@ -242,7 +251,7 @@ class SpreadStepSizes(_Base):
         c, _ = make_ctrl(mk, n, nlevels=nl)
         Sp = find_cc(c, 'SpreadStepSizesBlockwiseNonMPI')
         Sp.params.overwrite_to_reach_Tend = inst['overwrite']
-        Sp.params.spread_from_first_restarted = True
+        Sp.params.spread_from_first_restarted = inst.get('spread_first', True)
         time = [mk.real(f'time{p}') for p in range(n)]
         Tend = mk.real('Tend')
         for p, S in enumerate(c.MS):
@@ -251,11 +260,13 @@ class SpreadStepSizes(_Base):
                 L.params.dt = mk.real(f'dt[{p},{l}]')
                 mk.assume(L.params.dt > 0, 'dt>0')
                 L.params.dt_initial = mk.real(f'dt_initial[{l}]')
-                L.status.dt_new = mk.real(f'dt_new[{p},{l}]') if inst['dt_new'] else None
-                if inst['dt_new']:
+                L.status.dt_new = mk.real(f'dt_new[{p},{l}]') if inst['dt_new'] and (l == 0 or inst.get('coarse_proposal', True)) else None
+                if L.status.dt_new is not None:
                     mk.assume(L.status.dt_new > 0, 'dt_new>0')
         st = State(c=c, Sp=Sp, time=time, Tend=Tend, inst=inst, n=n, nl=nl)
         st.old_dt = [[L.params.dt for L in S.levels] for S in c.MS]
+        st.dt_new0 = [S.levels[0].status.dt_new for S in c.MS]
+        st.dt_new_all = [[L.status.dt_new for L in S.levels] for S in c.MS]
 
         def call():
             for S in c.MS:
@@ -267,12 +278,12 @@ class SpreadStepSizes(_Base):
     def snapshot(self, st):
         return snapshot({f'S{p}': S for p, S in enumerate(st.c.MS)})
 
-    def expected(self, st, l):
+    def expected(self, st, l, src_index=None):
         n, r = st.n, st.inst['r']
         ra = r if r < n else n - 1
-        src = st.c.MS[ra]
+        src = st.c.MS[ra if src_index is None else src_index]
         L = src.levels[l]
-        base = L.status.dt_new if L.status.dt_new is not None else st.old_dt[ra][l]
+        base = L.status.dt_new if L.status.dt_new is not None else st.old_dt[ra if src_index is None else src_index][l]
         if not st.inst['overwrite']:
             return base
         dt_all = 0.0 if ra == 0 else st.old_dt[ra][0]
@@ -285,6 +296,14 @@ class SpreadStepSizes(_Base):
         if exc is not None:
             return
         for l in range(nl):
+            if not st.inst.get('spread_first', True) and st.inst['r'] < n:
+                # source = first among the restarted steps whose FINEST-level proposal is smallest (the time bound still refers to the first restarted step)
+                r = st.inst['r']
+                dtn = [st.dt_new0[q] for q in range(n)]
+                for p, S in enumerate(c.MS):
+                    yield f'one_step_size_per_block[{p},{l}]', Or(*[And(*([dtn[q] > dtn[s] for q in range(r, s)] + [dtn[q] >= dtn[s] for q in range(s + 1, n)]),
+                                                                       seq(S.levels[l].params.dt, self.expected(st, l, src_index=s))) for s in range(r, n)])
+                continue
             V = self.expected(st, l)
             for p, S in enumerate(c.MS):
                 yield f'one_step_size_per_block[{p},{l}]', seq(S.levels[l].params.dt, V)
